@@ -198,14 +198,15 @@ Definition sites_of (f : string) : nat :=
   match find (fun p => String.eqb (fst p) f) value_error_sites with Some p => snd p | None => 0 end.
 
 (* the validation raises in the order modelled by validate_group / validate: length, first index, member index,
-   bases, count; one ValueError in the public function (len(map_ids)); one in the basis_id setter (range);
+   bases, count; two ValueErrors in the public function (len(map_ids); since fix 417f876 the pre-validation of every
+   map id before any assignment); one in the basis_id setter (range);
    the 2q indices are sorted; the offsets move by +1 (2q loop), +1 and -1 (1q loop); register size max(1, .);
    and the second loop refuses an unset basis_id (the repaired behaviour the model follows) *)
 Theorem c14_facts :
   c14_validate_messages =
     ["Each decomposition m"; "A circuit data index"; "A circuit data index"; "Gates within the sam"; "The total number of "] /\
   sites_of "qpd.decompose:_validate_qpd_instructions" = 5 /\
-  sites_of "qpd.decompose:decompose_qpd_instructions" = 1 /\
+  sites_of "qpd.decompose:decompose_qpd_instructions" = 2 /\
   sites_of "qpd.instructions.qpd_gate:BaseQPDGate.basis_id" = 1 /\
   c14_sorted_2q = true /\
   c14_offset_updates = ["=0"; "+=1"; "=0"; "+=1"; "-=1"] /\
